@@ -67,6 +67,39 @@ Proof.
   - left. split; reflexivity.
 Qed.
 
+(** cleanup ticks anywhere between the frames, never two in a row, change nothing *)
+Theorem lossless_ticks_main mtu sess stream ops rops :
+  57 <= mtu -> (N.of_nat mtu <= 65535)%N ->
+  (N.of_nat (length (frames_sched mtu sess stream ops)) <= two64)%N ->
+  all_fit mtu (filter valid_pkt (written ops)) ->
+  rframes rops = frames_sched mtu sess stream ops ->
+  no_adjacent_ticks rops false = true ->
+  ingest_ops rops = filter valid_pkt (written ops).
+Proof.
+  intros Hm Hu Hlen Hfit Hfr NT.
+  destruct (frames_sched_spec mtu ltac:(lia) sess stream ops) as (G & EF & Hch & Hd).
+  set (room := mtu - hdr_len) in *.
+  assert (Hroom : (N.of_nat room <= 65519)%N) by (unfold room, hdr_len; lia).
+  rewrite EF in Hlen, Hfr. rewrite map_length in Hlen.
+  unfold ingest_ops, worker_init.
+  rewrite (wrun_ticks (stream mod 1048576)%N rops [] [] false).
+  - rewrite Hfr, map_map.
+    change (map (fun x => fresh (g_bytes room sess stream x)) G) with (map (fr room sess stream) G).
+    assert (FG : Forall (fun g => Forall (fits room) (g_started g)) G).
+    { apply Forall_forall. intros g Hg. apply Forall_forall. intros p Hp.
+      apply fits_rlist_fits. unfold all_fit in Hfit. rewrite forallb_forall in Hfit. apply Hfit.
+      rewrite <- Hd. pose proof (chain_from_account _ _ _ _ _ Hch) as A. cbn [carry_pkt app] in A.
+      rewrite app_nil_r in A. rewrite <- A. now apply (started_sublist _ _ _ _ _ Hch g Hg). }
+    destruct (inorder_run room Hroom sess stream G None 0%N None [] Hch eq_refl ltac:(lia) I FG)
+      as (es' & E & _).
+    rewrite E. cbn [snd]. exact Hd.
+  - rewrite Hfr. apply Forall_forall. intros f Hf. apply in_map_iff in Hf as (g & <- & _). split.
+    + apply header_accepted.
+    + apply header_epoch.
+  - exact NT.
+  - left. split; reflexivity.
+Qed.
+
 (** ---------------------------------------------------------------- arbitrary delivery *)
 
 Definition sender_ok (s : sender) : Prop :=
@@ -210,14 +243,18 @@ Proof.
     + exact Hp.
     + apply in_flat_map. now exists s.
   - destruct snd as [|s [|s2 snd]]; try reflexivity.
-    cbn [frames map]. destruct (in_order plan (length (sc_model_frames s))) eqn:IO; [|reflexivity].
-    unfold frames. cbn [map]. rewrite (in_order_ops _ _ IO).
-    fold (ingest_ops (map RFrame (sc_model_frames s))). fold (ingest (sc_model_frames s)).
+    cbn [frames map].
+    destruct (bytes_list_eqb (rframes (map (rop_of [sc_model_frames s]) plan)) (sc_model_frames s)
+              && no_adjacent_ticks (map (rop_of [sc_model_frames s]) plan) false) eqn:IO; [|reflexivity].
+    apply andb_true_iff in IO as [IO NT].
+    apply (proj1 (list_eqb_eq bytes_eqb bytes_eqb_eq _ _)) in IO.
     destruct (Hok s (or_introl eq_refl)) as [Hm Hl].
     unfold mtu_ok in Hm. apply andb_true_iff in Hm as [Hm1 Hm2]. apply N.leb_le in Hm1, Hm2.
     cbn [forallb] in Hfits. rewrite andb_true_r in Hfits.
+    fold (ingest_ops (map (rop_of [sc_model_frames s]) plan)).
     unfold sc_model_frames in *. unfold sc_sent.
-    rewrite lossless_main; try lia; try assumption; try apply bytes_list_eqb_refl.
+    rewrite (lossless_ticks_main (N.to_nat (sc_mtu s)) (sc_sess s) (sc_stream s) (sc_ops s));
+      try lia; try assumption; try apply bytes_list_eqb_refl.
 Qed.
 
 Theorem enc_oracle_model mtu sess stream ops : 56 <= mtu ->
